@@ -129,5 +129,12 @@ def spaces(tier):
     if tier == "quick":
         return [Space("chains-depth2", gen(2), check, variant="fast",
                       describe="every template alone and every template inside every other (52 + 52^2 programs)")]
+    from . import c05
+    def gen4():
+        for ch in progs.chains(4, c05.INTERACT):
+            if len(ch) == 4:
+                yield ch
     return [Space("chains-depth3", gen(3), check, variant="fast",
-                  describe="all nesting chains up to depth 3 (52 + 52^2 + 52^3 programs)")]
+                  describe="all nesting chains up to depth 3 over all %d templates" % len(progs.TNAMES)),
+            Space("chains-depth4-interacting", gen4, check, variant="fast",
+                  describe="all depth-4 chains over the %d frame-interacting templates (early exits, handlers, loops that restart their frame)" % len(c05.INTERACT))]
